@@ -16,6 +16,8 @@
 (*       post = the machine's state afterwards (lists of the tuples of     *)
 (*       Session.tla), outcome = <<"ok", ...>> | <<"raise", class, ...>>   *)
 (*   <<"env", x, y, p, state, post>>   a core's application moves on       *)
+(*   <<"design", state>>   (job R) the state SessionDesign reached by the  *)
+(*       same calls, as printed by TLC's simulator (SessionSim.tla)        *)
 (* Three kinds of clause:                                                  *)
 (*   Simulator* / MachineInvariant  the environment follows the machine    *)
 (*       model (so the harness' simulator is itself validated)             *)
@@ -184,13 +186,18 @@ Checks(e) ==
         LET xyp == <<e[2], e[3], e[4]>>
         IN [EnvProgressLegal |-> CoreSt(st, xyp)[1] # StIdle /\ e[5] \in {StRte, StWdog, StCMain, StRun, StSync0, StSync1, StExit},
             EnvProgressApplied |-> ToState(e[6]) = OwnProgress(st, xyp, e[5])]
+    [] e[1] = "design" ->
+        \* job R: the calls were chosen by TLC's simulator from SessionDesign; the real machine must now be in the
+        \* state the design reached by the same calls
+        [DesignStateReached |-> ToState(e[2]) = st]
     [] OTHER -> [UnknownEvent |-> FALSE]
 
-Apply(e) == IF e[1] = "api" THEN ToState(e[6]) ELSE ToState(e[6])
+Apply(e) == IF e[1] = "design" THEN st ELSE ToState(e[6])
 
 Detail(e) == IF e[1] = "api"
              THEN e[2] \o " args=" \o ToString(e[3]) \o " outcome=" \o ToString(e[4]) \o " effective commands="
                   \o ToString(Eff(e[5])) \o " machine before=" \o ToString(st)
+             ELSE IF e[1] = "design" THEN "design expects " \o ToString(ToState(e[2])) \o " machine is in " \o ToString(st)
              ELSE "env " \o ToString(<<e[2], e[3], e[4], e[5]>>)
 Bad == LET ck == Checks(Ev) IN {c \in DOMAIN ck : ~ck[c]}
 TInit == /\ tid \in 1..Len(Traces) /\ ei = 1 /\ verdict = <<>> /\ st = Empty
